@@ -30,6 +30,13 @@ SPEC = dict(
         "SymVerif.Parser.parseTokens_doc",
         "SymVerif.C17.parse_pretty_tokens",
         "SymVerif.C17.parse_pretty_tokens'",
+        # 3b tokenizer round trip and the string-level theorem
+        "SymVerif.Parser.lexNumber_text",
+        "SymVerif.Parser.lexTok_text",
+        "SymVerif.Parser.lexAll_render",
+        "SymVerif.Parser.lexAll_renderInput",
+        "SymVerif.C17.parse_pretty",
+        "SymVerif.C17.parse_pretty_cx",
         # 4 meaning of an accepted certificate
         "SymVerif.C17.denote_sound",
         "SymVerif.C17.certificate_sound",
@@ -54,9 +61,10 @@ SPEC = dict(
     not_covered=[
         "the LALR tables of parser.tab.cc and the DFA of tokenizer.cpp are generated code: tied by the differential "
         "run only (the theorems are about the re2c/bison *specifications* as translated)",
-        "string level: the theorem parse_pretty_tokens starts from the token sequence of a printed form; that the "
-        "model tokenizer maps the rendered string (with arbitrary whitespace) back to these tokens is tested on every "
-        "generated case (model tree = generator tree), not proved",
+        "parse_pretty needs the side condition SepOK (no whitespace only where the next byte cannot extend the previous "
+        "token); that a printed form never needs whitespace at all is tested (tag arith-exact-tight), not proved; the "
+        "power operator is rendered as ** in the theorem (@ and ^ spellings, implicit-multiplication tokens whose "
+        "identifier starts with e/E, and the Piecewise keyword are tested only)",
         "floating point: a float literal is checked to be a nearest double (exact integer arithmetic certificate, "
         "floatOk); arithmetic *between* floats is judged by the double oracle only (tolerance 1e-9)",
         "non-constant exponents, function applications with non-symbol arguments, relational/logical results: no Lean "
@@ -75,15 +83,16 @@ SPEC = dict(
     level_text="Machine-checked proof (Lean 4) over an executable model of the tokenizer specification, the grammar "
                "(precedence climbing driven by the %left/%right table translated from parser.yy on every run) and "
                "parse_numeric/parse_implicit_mul: the translated tables are the conventional ones (decide), every digit "
-               "string incl. leading zeros is its decimal value, and for EVERY printed form with sufficient parentheses "
-               "the parser returns the tree the form stands for (usual precedence/associativity, unary minus below **, "
+               "string incl. leading zeros is its decimal value, and for EVERY printed form with sufficient parentheses, "
+               "rendered as a byte string with arbitrary whitespace, "
+               "the parser (tokenizer + grammar) returns the tree the form stands for (usual precedence/associativity, unary minus below **, "
                "right-associative **, implicit multiplication). The library is tied to the model per generated input: "
                "model tree = generator tree, and the library's canonical result is accepted by a proven-sound "
                "certificate check (rational-function normal form; nearest-double check for float literals) against the "
                "conventional value of that tree; an independent GMP/libm/strtod oracle evaluates the same trees.",
-    level_note="token-level theorem for all printed forms without Piecewise; string-to-token step and the generated "
-               "C++ tables are covered by differential execution, value certificate covers the exact integer-exponent "
-               "fragment",
+    level_note="string-level round-trip theorem for all printed forms without Piecewise (whitespace side condition "
+               "SepOK); the generated C++ tables are covered by differential execution; the value certificate covers the "
+               "exact integer-exponent fragment",
     technique="Pratt/precedence-climbing model with fuel; fuel-monotonicity lemma; round-trip proof by mutual "
               "structural induction on printed forms with left-spine/right-capture invariants (LeftOK/NoCapture); "
               "decide over translated tables; certificate mode with NF normaliser soundness (wp-nf-c07) and an exact "
